@@ -178,8 +178,8 @@ def run(ctx: Ctx):
                 d = n.args[1]
                 if d.op in ("phi", "ifexp"):
                     t, a_, b_ = d.args
-                    given = t.op == "isnot" and t.args[0].op == "param" and t.args[0].args[0] == "actions" and vg.is_const(t.args[1], None)
-                    absent = t.op == "is" and t.args[0].op == "param" and t.args[0].args[0] == "actions" and vg.is_const(t.args[1], None)
+                    given = t.op == "isnot" and t.args[0].op == "param" and t.args[0].args[0] == "actions" and vg.is_none(t.args[1])
+                    absent = t.op == "is" and t.args[0].op == "param" and t.args[0].args[0] == "actions" and vg.is_none(t.args[1])
                     forced = forced or (given and vg.is_const(a_, "evaluate")) or (absent and vg.is_const(b_, "evaluate"))
     ctx.ob("C11.c", "ConstructivePolicy.forward:evaluate-forced", forced, cp.loc, "decode_type = 'evaluate' whenever actions are given", construct="ConstructivePolicy.forward:evaluate")
     reass = [n for n in ast.walk(cp.node) if isinstance(n, (ast.Assign, ast.AugAssign)) and any(isinstance(t, ast.Name) and t.id == "decoding_kwargs" for t in (n.targets if isinstance(n, ast.Assign) else [n.target]))]
